@@ -5,9 +5,12 @@ is enumerated completely on every run.  Per cell three monitors:
 
  (i)   yield:   a marker queued with loop.call_soon immediately before the call must have
                 run by the time the call returns;
- (ii)  cancel:  called inside ``with CancelScope() as s: s.cancel()`` the operation must
-                raise the cancellation exception (observed as s.cancelled_caught and the
-                statement after the call not being reached);
+ (ii)  cancel:  called inside a cancelled scope the operation must raise the cancellation
+                exception (observed as cancelled_caught and the statement after the call not
+                being reached).  "A cancelled scope" is enumerated in every shape a caller can
+                meet (CANCEL_CTXS): plain cancel(), a scope that is shielded AND cancelled,
+                a cancelled parent around an un-cancelled scope, an already expired deadline
+                (with and without shield), shield switched on after cancel();
  (iii) effect:  after (ii) the object must be unchanged (nothing acquired, sent, consumed,
                 started; Condition.wait keeps the lock and registers no waiter).
 
@@ -29,7 +32,7 @@ from ..loops import run
 PROPERTY = "C08"
 LEVEL = "exploration"
 RULE = (
-    "cells = operation x pre-state x half (yield | cancelled-scope+effect) x loop config "
+    "cells = operation x pre-state x half (yield | cancelled-scope shape (6) + effect) x loop config "
     "(asyncio, asyncio+eager task factory, uvloop); the whole table is enumerated on every "
     "run (exhaustive over the declared table; thorough adds seeded parameter/pre-state "
     "variation: semaphore values, limiter totals, buffer sizes, itertools parameters and "
@@ -383,10 +386,65 @@ ITER_SOURCES = ["sync-empty", "sync-singleton", "sync-longer", "async-empty"]
 LIMIT = 4  # elements taken from infinite iterators
 
 
+
+CANCEL_CTXS = ["plain", "shielded+cancelled", "parent-cancelled", "expired-deadline",
+               "expired-deadline+shield", "shield-set-after-cancel"]
+
+
+class _Ctx:
+    """The ways a caller can find itself in a cancelled scope (all are 'cancelled' for C08)."""
+
+    def __init__(self, kind: str) -> None:
+        import anyio
+        from anyio import CancelScope
+
+        self.kind = kind
+        self.inner = None
+        if kind == "plain":
+            self.scope = CancelScope()
+        elif kind == "shielded+cancelled":
+            self.scope = CancelScope(shield=True)
+        elif kind == "parent-cancelled":
+            self.scope = CancelScope()
+            self.inner = CancelScope()
+        elif kind == "expired-deadline":
+            self.scope = anyio.move_on_after(0)
+        elif kind == "expired-deadline+shield":
+            self.scope = anyio.move_on_after(0, shield=True)
+        elif kind == "shield-set-after-cancel":
+            self.scope = CancelScope()
+        else:  # pragma: no cover
+            raise ValueError(kind)
+
+    def __enter__(self):  # noqa: ANN204
+        self.scope.__enter__()
+        if self.kind in ("plain", "shielded+cancelled", "parent-cancelled", "shield-set-after-cancel"):
+            self.scope.cancel()
+
+        if self.kind == "shield-set-after-cancel":
+            self.scope.shield = True
+
+        if self.inner is not None:
+            self.inner.__enter__()
+
+        return self
+
+    def __exit__(self, *exc):  # noqa: ANN002, ANN204
+        if self.inner is not None:
+            if self.inner.__exit__(*exc):
+                # an un-cancelled inner scope must not absorb anything
+                return self.scope.__exit__(None, None, None)
+
+        return self.scope.__exit__(*exc)
+
+    @property
+    def cancelled_caught(self) -> bool:
+        return self.scope.cancelled_caught
+
+
 # ---------------------------------------------------------------------------------------
 async def run_primitive(name, params, build, half, col, cfg) -> None:  # noqa: ANN001
     import anyio
-    from anyio import CancelScope
 
     case = {"cell": name, "params": params, "half": half, "cfg": cfg}
     loop = asyncio.get_running_loop()
@@ -403,8 +461,7 @@ async def run_primitive(name, params, build, half, col, cfg) -> None:  # noqa: A
                         viol.append(("no-yield", {"cell": name}))
                 else:
                     reached = []
-                    with CancelScope() as s:
-                        s.cancel()
+                    with _Ctx(half.partition(":")[2]) as s:
                         await op()
                         reached.append(1)
 
@@ -428,20 +485,19 @@ async def run_primitive(name, params, build, half, col, cfg) -> None:  # noqa: A
         col.violation(clause, detail, case)
 
 
-async def run_condition_wait(col, cfg) -> None:  # noqa: ANN001
+async def run_condition_wait(col, cfg, ctx="plain") -> None:  # noqa: ANN001
     """Condition.wait entered in a cancelled scope: raises, keeps the lock, no waiter."""
     import anyio
-    from anyio import CancelScope
 
-    case = {"cell": "Condition.wait[cancelled scope]", "params": {}, "half": "cancel", "cfg": cfg}
+    case = {"cell": "Condition.wait[cancelled scope]", "params": {}, "half": "cancel:" + ctx,
+            "cfg": cfg}  # fmt: skip
     viol = []
     try:
         with anyio.fail_after(10):
             cond = anyio.Condition()
             await cond.acquire()
             reached = []
-            with CancelScope() as s:
-                s.cancel()
+            with _Ctx(ctx) as s:
                 await cond.wait()
                 reached.append(1)
 
@@ -504,7 +560,6 @@ async def _traverse(obj) -> int:  # noqa: ANN001
 
 async def run_iter(name, params, mk, kind, half, col, cfg) -> None:  # noqa: ANN001
     import anyio
-    from anyio import CancelScope
 
     case = {"cell": "itertools." + name, "params": params, "source": kind, "half": half, "cfg": cfg}
     loop = asyncio.get_running_loop()
@@ -519,8 +574,7 @@ async def run_iter(name, params, mk, kind, half, col, cfg) -> None:  # noqa: ANN
                     viol.append(("no-yield", {"cell": case["cell"], "yielded": n}))
             else:
                 reached = []
-                with CancelScope() as s:
-                    s.cancel()
+                with _Ctx(half.partition(":")[2]) as s:
                     await _traverse(mk(kind))
                     reached.append(1)
 
@@ -552,15 +606,18 @@ def run_shard(desc: dict, col) -> None:  # noqa: ANN001
     rng = random.Random(desc["seed"] * 8089 + desc["variant"]) if desc["variant"] else None
 
     async def main() -> None:
+        halves = ["yield"] + ["cancel:" + k for k in CANCEL_CTXS]
         for name, params, build in primitive_cells(rng):
-            for half in ("yield", "cancel"):
+            for half in halves:
                 await run_primitive(name, params, build, half, col, cfg)
 
-        await run_condition_wait(col, cfg)
+        for ctx in CANCEL_CTXS:
+            await run_condition_wait(col, cfg, ctx)
+
         await run_empty_taskgroup(col, cfg)
         for name, params, mk in itertools_cells(rng):
             for kind in ITER_SOURCES:
-                for half in ("yield", "cancel"):
+                for half in halves:
                     await run_iter(name, params, mk, kind, half, col, cfg)
 
     run(main, config=cfg)
